@@ -38,7 +38,7 @@ def split_abs(lines):
 class Step:
     """everything observed for one call"""
     __slots__ = ("i", "call", "model", "spec", "real", "model_state", "real_state", "spec_abs", "real_abs",
-                 "exact", "model_locks", "real_locks", "stream")
+                 "exact", "model_locks", "real_locks", "stream", "outside")
 
 
 def chan_diff(a, b, channels=None):
@@ -90,6 +90,7 @@ class Trio:
             st.exact = abstraction.exactness(tree, self.known)
             st.model_locks = self.model.locks()
             st.real_locks = self.real.locks()
+            st.outside = sorted(os.listdir(self.real.base))
         return st
 
     def close(self):
@@ -117,6 +118,8 @@ def observe(st):
         refd = {l.split(" ")[2] for l in s["abs.bind"]}
         s["abs.refobjs"] = [l for l in s["abs.objs"] if l.split(" ")[1] in refd]
         r["abs.refobjs"] = [l for l in r["abs.objs"] if l.split(" ")[1] in refd]
+        s["outside"] = ["inputs", "store"]
+        r["outside"] = st.outside
         s["tmp"] = ["T metadata/tmp 0", "T objects/tmp 0", "T refs/tmp 0"]
         r["tmp"] = [l for l in st.real_state if l.startswith("T ")]
     if st.stream is not None:
@@ -170,11 +173,13 @@ def run_history(history, cfg, contents, outcome, owned, projection=None, stop_on
             f = chan_diff(s, r, own)
             if f:
                 outcome.findings.append((history[: idx + 1], idx, f))
-            if d:
+            if d and not outcome.disagreements:
                 outcome.disagreements.append((history[: idx + 1], idx, d))
-            if (d or f) and stop_on_first:
+            # a property failure ends the history; a mere model/code disagreement does not: the rest of
+            # the history is the first place to look for the failing input
+            if f and stop_on_first:
                 return False
-        return True
+        return not outcome.disagreements
     finally:
         trio.close()
 
